@@ -319,6 +319,9 @@ Proof.
 Qed.
 
 (* ------------------------------------------------------------------ symbols *)
+Section WithCfg.
+Variable cfg : lcfg.
+
 Definition ids_ok (syms : list sym) : Prop :=
   forall i s, nth_error syms i = Some s -> y_id s = Z.of_nat i.
 
@@ -414,8 +417,9 @@ Definition sym_mapped (offs : list (string * Z)) (out : list sym) (s : sym) (id 
   exists s', nth_error out (Z.to_nat id) = Some s' /\ y_id s' = id /\
              y_name s' = y_name s /\ y_bind s' = y_bind s /\
              (forall v, y_value s = Some v ->
-                exists sc off, y_sect s = Some sc /\ lookup sc offs = Some off /\
-                               y_value s' = Some (off + v) /\ y_sect s' = Some sc).
+                (exists sc off, y_sect s = Some sc /\ lookup sc offs = Some off /\
+                                y_value s' = Some (off + v) /\ y_sect s' = Some sc) \/
+                (fix_abs cfg = true /\ y_sect s = None /\ y_value s' = Some v /\ y_sect s' = None)).
 
 Lemma sym_mapped_stable offs out out' s id :
   sym_stable out out' -> sym_mapped offs out s id -> sym_mapped offs out' s id.
@@ -423,8 +427,8 @@ Proof.
   intros St [H0 [s' [N [I [A [B C]]]]]]. split; [assumption|].
   destruct (St _ _ N) as [s'' [N' [A' [B' [I' D]]]]].
   exists s''. repeat split; try congruence.
-  intros v Hv. destruct (C v Hv) as [sc [off [S1 [L [V S2]]]]].
-  assert (s'' = s') by (apply D; congruence). subst s''. eauto 8.
+  intros v Hv. destruct (C v Hv) as [[sc [off [S1 [L [V S2]]]]]|[Fx [S1 [V S2]]]];
+    (assert (s'' = s') by (apply D; congruence)); subst s''; [left; eauto 8 | right; auto].
 Qed.
 
 Lemma merge_global_symbol_spec syms name sc value typ size syms' id :
@@ -454,28 +458,30 @@ Proof.
 Qed.
 
 Lemma inject_sym_spec offs syms s syms' id :
-  ids_ok syms -> inject_sym offs syms s = Ok (syms', id) ->
+  ids_ok syms -> inject_sym cfg offs syms s = Ok (syms', id) ->
   sym_mapped offs syms' s id /\ sym_stable syms syms' /\ ids_ok syms'.
 Proof.
   intros Hids H. unfold inject_sym in H. inv_bind H. destruct a as [value sect]. cbn [fst snd] in H.
   assert (Hvs : forall v, y_value s = Some v ->
-            exists sc off, y_sect s = Some sc /\ lookup sc offs = Some off /\
-                           value = Some (off + v) /\ sect = Some sc).
-  { intros v Hv. rewrite Hv in Ha. destruct (y_sect s) as [sc|]; [|discriminate].
-    destruct (lookup sc offs) as [off|] eqn:L; [|discriminate]. injection Ha as <- <-. eauto 8. }
+            (exists sc off, y_sect s = Some sc /\ lookup sc offs = Some off /\
+                            value = Some (off + v) /\ sect = Some sc) \/
+            (fix_abs cfg = true /\ y_sect s = None /\ value = Some v /\ sect = None)).
+  { intros v Hv. rewrite Hv in Ha. destruct (y_sect s) as [sc|].
+    - destruct (lookup sc offs) as [off|] eqn:L; [|discriminate]. injection Ha as <- <-. left. eauto 8.
+    - destruct (fix_abs cfg) eqn:Fx; [|discriminate]. injection Ha as <- <-. right. auto. }
   destruct (is_global (y_bind s)) eqn:G.
   - destruct (merge_global_symbol_spec _ _ _ _ _ _ _ _ Hids H) as [St [I2 [H0 [s' [N [I [A [B C]]]]]]]].
     split; [|auto]. split; [assumption|]. exists s'. repeat split; auto.
     + apply is_global_eq in G. congruence.
-    + intros v Hv. destruct (Hvs v Hv) as [sc [off [S1 [L [-> ->]]]]].
-      destruct (C _ eq_refl) as [V S2]. eauto 8.
+    + intros v Hv. destruct (Hvs v Hv) as [[sc [off [S1 [L [-> ->]]]]]|[Fx [S1 [-> ->]]]];
+        destruct (C _ eq_refl) as [V S2]; [left; eauto 8 | right; auto].
   - apply inject_symbol_spec in H. destruct H as [-> ->].
     split; [|split; [apply sym_stable_app | apply ids_ok_app; auto]].
     split; [apply len_nonneg|]. eexists. split; [apply nth_error_snoc|]. cbn. repeat split; auto.
 Qed.
 
 Lemma inject_syms_spec offs inps : forall syms syms' ids,
-  ids_ok syms -> inject_syms offs syms inps = Ok (syms', ids) ->
+  ids_ok syms -> inject_syms cfg offs syms inps = Ok (syms', ids) ->
   Forall2 (sym_mapped offs syms') inps ids /\ sym_stable syms syms' /\ ids_ok syms'.
 Proof.
   induction inps as [|s r IH]; intros syms syms' ids Hids H; cbn in H.
@@ -511,7 +517,7 @@ Proof.
   exists (r1 ++ r2). rewrite R2, R1. now rewrite app_assoc.
 Qed.
 
-(* what the output holds for one input object, given what inject_object recorded for it *)
+(* what the output holds for one input object, given what inject_object cfg recorded for it *)
 Definition injected (out o : obj) (t : trace) : Prop :=
   Forall2 (contrib (o_sects out)) (o_sects o) (fst t) /\
   Forall2 (sym_mapped (fst t) (o_syms out)) (o_syms o) (snd t) /\
@@ -530,7 +536,7 @@ Proof.
 Qed.
 
 Lemma inject_object_spec d o d' t :
-  ids_ok (o_syms d) -> inject_object d o = Ok (d', t) ->
+  ids_ok (o_syms d) -> inject_object cfg d o = Ok (d', t) ->
   injected d' o t /\ obj_grows d d' /\ ids_ok (o_syms d') /\ o_images d' = o_images d.
 Proof.
   intros Hids H. unfold inject_object in H.
@@ -545,7 +551,7 @@ Proof.
 Qed.
 
 Lemma merge_objects_spec objs : forall d d' ts,
-  ids_ok (o_syms d) -> merge_objects d objs = Ok (d', ts) ->
+  ids_ok (o_syms d) -> merge_objects cfg d objs = Ok (d', ts) ->
   Forall2 (injected d') objs ts /\ obj_grows d d' /\ ids_ok (o_syms d') /\ o_images d' = o_images d.
 Proof.
   induction objs as [|o r IH]; intros d d' ts Hids H; cbn in H.
@@ -769,13 +775,14 @@ Proof.
 Qed.
 
 Lemma layout_input_step loc d cur names i d' cur' names' :
-  ids_ok (o_syms d) -> layout_input (d, cur, names) i = Ok (d', cur', names') ->
+  ids_ok (o_syms d) -> layout_input cfg (d, cur, names) i = Ok (d', cur', names') ->
   ((forall n, In n (input_name i) -> ~ In n names) -> linv loc d cur names -> linv loc d' cur' names') /\
   names' = names ++ input_name i /\ cur <= cur' /\
   obj_grows d d' /\ frame d d' (input_name i) /\ ids_ok (o_syms d') /\ o_images d' = o_images d.
 Proof.
   intros Hids H. cbn [layout_input] in H. destruct i as [n|n|n|a].
   - (* Section *)
+    destruct (fix_twice cfg && existsb (String.eqb n) (placed_so_far d names)) eqn:Tw; [discriminate|].
     destruct (get_section_create n (o_sects d)) as [secs1 s] eqn:G.
     destruct (get_section_create_spec _ _ _ _ G) as [F1 [N1 [O1 C1]]].
     inv_bind H. injection H as <- <- <-.
@@ -846,7 +853,7 @@ Proof.
 Qed.
 
 Lemma layout_inputs_spec loc l : forall d cur names d' cur' names',
-  ids_ok (o_syms d) -> layout_inputs (d, cur, names) l = Ok (d', cur', names') ->
+  ids_ok (o_syms d) -> layout_inputs cfg (d, cur, names) l = Ok (d', cur', names') ->
   (NoDup (names ++ placed_names l) -> linv loc d cur names -> linv loc d' cur' names') /\
   names' = names ++ placed_names l /\
   obj_grows d d' /\ frame d d' (placed_names l) /\ ids_ok (o_syms d') /\ o_images d' = o_images d.
@@ -867,7 +874,7 @@ Proof.
     intros n Hn Hin. apply (D n Hin). apply in_app_iff. now left.
 Qed.
 
-(* what layout_sections establishes for one memory and its image (in destination d) *)
+(* what layout_sections cfg establishes for one memory and its image (in destination d) *)
 Definition mem_placed (d : obj) (m : memory) (img : image) : Prop :=
   i_name img = m_name m /\ i_addr img = m_loc m /\ i_sects img = placed_names (m_inputs m) /\
   (forall n, In n (i_sects img) -> find_sect n (o_sects d) <> None) /\
@@ -888,9 +895,9 @@ Proof.
 Qed.
 
 Lemma layout_memory_grows d m d' :
-  ids_ok (o_syms d) -> layout_memory d m = Ok d' ->
+  ids_ok (o_syms d) -> layout_memory cfg d m = Ok d' ->
   obj_grows d d' /\ frame d d' (placed_names (m_inputs m)) /\ ids_ok (o_syms d') /\
-  exists img, o_images d' = o_images d ++ [img] /\
+  exists img, o_images d' = o_images d ++ [img] /\ i_sects img = placed_names (m_inputs m) /\
     (NoDup (placed_names (m_inputs m)) -> mem_placed d' m img).
 Proof.
   intros Hids H. unfold layout_memory in H. inv_bind H. destruct a as [[d1 cur] names].
@@ -901,7 +908,7 @@ Proof.
   - destruct G as [G1 [G2 G3]]. split; [exact G1|]. split; [exact G2|]. exact G3.
   - exact F.
   - exact I.
-  - eexists. split; [rewrite Im; reflexivity|]. intros ND.
+  - eexists. split; [rewrite Im; reflexivity|]. split; [reflexivity|]. intros ND.
     assert (Inv0 : linv (m_loc m) d (m_loc m) []).
     { split; [intros n []|]. cbn. repeat split; [lia | constructor]. }
     destruct (L ND Inv0) as [R [O [E Al]]].
@@ -915,19 +922,20 @@ Definition all_placed (mems : list memory) : list string :=
   flat_map (fun m => placed_names (m_inputs m)) mems.
 
 Lemma layout_sections_spec mems : forall d d',
-  ids_ok (o_syms d) -> layout_sections d mems = Ok d' ->
+  ids_ok (o_syms d) -> layout_sections cfg d mems = Ok d' ->
   obj_grows d d' /\ frame d d' (all_placed mems) /\ ids_ok (o_syms d') /\
-  exists imgs, o_images d' = o_images d ++ imgs /\
+  exists imgs, o_images d' = o_images d ++ imgs /\ flat_map i_sects imgs = all_placed mems /\
     (NoDup (all_placed mems) -> Forall2 (mem_placed d') mems imgs).
 Proof.
   induction mems as [|m r IH]; intros d d' Hids H; cbn in H.
   - injection H as <-. split; [apply obj_grows_refl|]. split; [apply frame_refl|]. split; [assumption|].
-    exists []. rewrite app_nil_r. split; [reflexivity|]. constructor.
-  - inv_bind H. destruct (layout_memory_grows _ _ _ Hids Ha) as [G1 [F1 [I1 [img [Im1 P1]]]]].
-    destruct (IH _ _ I1 H) as [G2 [F2 [I2 [imgs [Im2 P2]]]]].
+    exists []. rewrite app_nil_r. split; [reflexivity|]. split; [reflexivity|]. constructor.
+  - inv_bind H. destruct (layout_memory_grows _ _ _ Hids Ha) as [G1 [F1 [I1 [img [Im1 [Is1 P1]]]]]].
+    destruct (IH _ _ I1 H) as [G2 [F2 [I2 [imgs [Im2 [Is2 P2]]]]]].
     split; [eapply obj_grows_trans; eassumption|].
     split; [cbn; eapply frame_trans; eassumption|]. split; [assumption|].
     exists (img :: imgs). split; [rewrite Im2, Im1; now rewrite <- app_assoc|].
+    split; [cbn; now rewrite Is1, Is2|].
     intros ND. cbn in ND. destruct (NoDup_app_inv _ _ ND) as [N1 [N2 D]].
     constructor; [|auto].
     apply mem_placed_frame with (d := a); [auto|].
@@ -955,11 +963,11 @@ Definition entry_name (lay : option layout) (entry : option string) : option str
   end.
 
 Lemma link_trace_inv objs lay partial entry extra out ts :
-  link_trace objs lay partial entry extra = Ok (out, ts) ->
+  link_trace cfg objs lay partial entry extra = Ok (out, ts) ->
   exists d1, ids_ok (o_syms d1) /\ o_images d1 = [] /\ Forall2 (injected d1) objs ts /\
     ((partial = true /\ lay = None /\ out = d1) \/
      (partial = false /\ check_undefined_symbols out = Ok tt /\
-      match lay with Some l => layout_sections d1 (l_mems l) = Ok out | None => out = d1 end)).
+      match lay with Some l => layout_sections cfg d1 (l_mems l) = Ok out | None => out = d1 end)).
 Proof.
   unfold link_trace. destruct objs as [|o0 objs0]; [discriminate|]. set (objs := o0 :: objs0).
   fold (entry_name lay entry). intros H.
@@ -980,7 +988,7 @@ Proof.
 Qed.
 
 Lemma link_trace_injected objs lay partial entry extra out ts :
-  link_trace objs lay partial entry extra = Ok (out, ts) -> Forall2 (injected out) objs ts.
+  link_trace cfg objs lay partial entry extra = Ok (out, ts) -> Forall2 (injected out) objs ts.
 Proof.
   intros H. destruct (link_trace_inv _ _ _ _ _ _ _ H) as [d1 [I [Im [F C]]]].
   destruct C as [[_ [_ ->]]|[_ [_ L]]]; [assumption|].
@@ -990,17 +998,17 @@ Proof.
 Qed.
 
 Lemma link_trace_layout objs l entry extra out ts :
-  link_trace objs (Some l) false entry extra = Ok (out, ts) ->
+  link_trace cfg objs (Some l) false entry extra = Ok (out, ts) ->
   NoDup (all_placed (l_mems l)) -> Forall2 (mem_placed out) (l_mems l) (o_images out).
 Proof.
   intros H ND. destruct (link_trace_inv _ _ _ _ _ _ _ H) as [d1 [I [Im [F C]]]].
   destruct C as [[? _]|[_ [_ L]]]; [discriminate|].
-  destruct (layout_sections_spec _ _ _ I L) as [_ [_ [_ [imgs [E P]]]]].
+  destruct (layout_sections_spec _ _ _ I L) as [_ [_ [_ [imgs [E [_ P]]]]]].
   rewrite Im in E. cbn in E. rewrite E. auto.
 Qed.
 
 Lemma link_trace_defined objs lay entry extra out ts :
-  link_trace objs lay false entry extra = Ok (out, ts) ->
+  link_trace cfg objs lay false entry extra = Ok (out, ts) ->
   forall s, In s (o_syms out) -> is_global (y_bind s) = true -> y_value s <> None.
 Proof.
   intros H s Hs G. destruct (link_trace_inv _ _ _ _ _ _ _ H) as [d1 [_ [_ [_ C]]]].
@@ -1046,7 +1054,7 @@ Proof.
 Qed.
 
 Lemma c12_contents objs lay partial entry extra out ts :
-  link_trace objs lay partial entry extra = Ok (out, ts) ->
+  link_trace cfg objs lay partial entry extra = Ok (out, ts) ->
   List.length ts = List.length objs /\
   forall i o t, nth_error objs i = Some o -> nth_error ts i = Some t ->
     List.length (fst t) = List.length (o_sects o) /\
@@ -1063,7 +1071,7 @@ Proof.
 Qed.
 
 Lemma c12_offsets objs lay partial entry extra out ts i o t j s rec :
-  link_trace objs lay partial entry extra = Ok (out, ts) ->
+  link_trace cfg objs lay partial entry extra = Ok (out, ts) ->
   nth_error objs i = Some o -> nth_error ts i = Some t ->
   nth_error (o_sects o) j = Some s -> nth_error (fst t) j = Some rec ->
   fst rec = s_name s /\ aligned (snd rec) (s_align s).
@@ -1074,23 +1082,24 @@ Proof.
 Qed.
 
 Lemma c12_symbols objs lay partial entry extra out ts i o t k sy id v :
-  link_trace objs lay partial entry extra = Ok (out, ts) ->
+  link_trace cfg objs lay partial entry extra = Ok (out, ts) ->
   nth_error objs i = Some o -> nth_error ts i = Some t ->
   nth_error (o_syms o) k = Some sy -> nth_error (snd t) k = Some id -> y_value sy = Some v ->
-  exists sc off ds, y_sect sy = Some sc /\ lookup sc (fst t) = Some off /\
-    0 <= id /\ nth_error (o_syms out) (Z.to_nat id) = Some ds /\ y_id ds = id /\
+  exists ds, 0 <= id /\ nth_error (o_syms out) (Z.to_nat id) = Some ds /\ y_id ds = id /\
     y_name ds = y_name sy /\ y_bind ds = y_bind sy /\
-    y_value ds = Some (off + v) /\ y_sect ds = Some sc.
+    ((exists sc off, y_sect sy = Some sc /\ lookup sc (fst t) = Some off /\
+                     y_value ds = Some (off + v) /\ y_sect ds = Some sc) \/
+     (fix_abs cfg = true /\ y_sect sy = None /\ y_value ds = Some v /\ y_sect ds = None)).
 Proof.
   intros H Ho Ht Hs Hi Hv. pose proof (link_trace_injected _ _ _ _ _ _ _ H) as F.
   destruct (Forall2_nth _ _ _ _ _ _ F Ho Ht) as [_ [M _]].
   destruct (Forall2_nth _ _ _ _ _ _ M Hs Hi) as [H0 [ds [N [I [A [B C]]]]]].
-  destruct (C v Hv) as [sc [off [S1 [L [V S2]]]]]. exists sc, off, ds. auto 12.
+  exists ds. repeat split; auto.
 Qed.
 
 (* every symbol of every input is represented (same name and binding), defined or not *)
 Lemma c12_symbols_present objs lay partial entry extra out ts i o t k sy :
-  link_trace objs lay partial entry extra = Ok (out, ts) ->
+  link_trace cfg objs lay partial entry extra = Ok (out, ts) ->
   nth_error objs i = Some o -> nth_error ts i = Some t ->
   nth_error (o_syms o) k = Some sy ->
   exists id ds, nth_error (snd t) k = Some id /\ nth_error (o_syms out) (Z.to_nat id) = Some ds /\
@@ -1173,7 +1182,7 @@ Definition placed_ok (out : obj) (m : memory) (img : image) : Prop :=
     forall k, 0 <= k < len bytes -> nth (Z.to_nat k) bytes 0 = mem_byte (blocks ss) (m_loc m + k).
 
 Lemma c12_layout objs l entry extra out ts :
-  link_trace objs (Some l) false entry extra = Ok (out, ts) ->
+  link_trace cfg objs (Some l) false entry extra = Ok (out, ts) ->
   NoDup (all_placed (l_mems l)) -> Forall2 (placed_ok out) (l_mems l) (o_images out).
 Proof.
   intros H ND. eapply Forall2_mono; [|eapply link_trace_layout; eassumption].
@@ -1186,7 +1195,7 @@ Definition reloc_shifted (t : trace) (o : obj) (r r' : reloc) : Prop :=
     r' = mkReloc (r_type r) id (r_sect r) (off + r_off r) (r_addend r).
 
 Lemma c12_relocs objs lay partial entry extra out ts i o t :
-  link_trace objs lay partial entry extra = Ok (out, ts) ->
+  link_trace cfg objs lay partial entry extra = Ok (out, ts) ->
   nth_error objs i = Some o -> nth_error ts i = Some t ->
   exists pre rels post, o_relocs out = pre ++ rels ++ post /\
                         Forall2 (reloc_shifted t o) (o_relocs o) rels.
@@ -1332,20 +1341,21 @@ Proof.
 Qed.
 
 Lemma inject_sym_D offs syms D s syms' id :
-  DInv syms D -> inject_sym offs syms s = Ok (syms', id) -> DInv syms' (D ++ sym_def s).
+  DInv syms D -> inject_sym cfg offs syms s = Ok (syms', id) -> DInv syms' (D ++ sym_def s).
 Proof.
   intros Inv H. unfold inject_sym in H. inv_bind H. destruct a as [value sect]. cbn [fst snd] in H.
   unfold sym_def, y_undefined. destruct (is_global (y_bind s)) eqn:G; cbn [andb].
   - destruct (y_value s) as [v|]; cbn [negb].
-    + destruct (y_sect s); [|discriminate]. destruct (lookup s0 offs); [|discriminate].
-      injection Ha as <- <-. eapply merge_def_D; eassumption.
+    + destruct (y_sect s).
+      * destruct (lookup s0 offs); [|discriminate]. injection Ha as <- <-. eapply merge_def_D; eassumption.
+      * destruct (fix_abs cfg); [|discriminate]. injection Ha as <- <-. eapply merge_def_D; eassumption.
     + injection Ha as <- <-. rewrite app_nil_r. eapply merge_undef_D; eassumption.
   - rewrite app_nil_r. apply inject_symbol_spec in H. destruct H as [-> ->].
     apply append_nondef_D; [assumption|]. cbn [y_bind]. congruence.
 Qed.
 
 Lemma inject_syms_D offs inps : forall syms D syms' ids,
-  DInv syms D -> inject_syms offs syms inps = Ok (syms', ids) ->
+  DInv syms D -> inject_syms cfg offs syms inps = Ok (syms', ids) ->
   DInv syms' (D ++ flat_map sym_def inps).
 Proof.
   induction inps as [|s r IH]; intros syms D syms' ids Inv H; cbn in H.
@@ -1355,7 +1365,7 @@ Proof.
 Qed.
 
 Lemma merge_objects_D objs : forall d D d' ts,
-  DInv (o_syms d) D -> merge_objects d objs = Ok (d', ts) ->
+  DInv (o_syms d) D -> merge_objects cfg d objs = Ok (d', ts) ->
   DInv (o_syms d') (D ++ flat_map obj_defs objs).
 Proof.
   induction objs as [|o r IH]; intros d D d' ts Inv H; cbn in H.
@@ -1367,14 +1377,15 @@ Proof.
 Qed.
 
 Lemma layout_inputs_D l : forall st D st',
-  DInv (o_syms (fst (fst st))) D -> layout_inputs st l = Ok st' ->
+  DInv (o_syms (fst (fst st))) D -> layout_inputs cfg st l = Ok st' ->
   DInv (o_syms (fst (fst st'))) (D ++ flat_map input_def l).
 Proof.
   induction l as [|i r IH]; intros st D st' Inv H; cbn in H.
   - injection H as <-. cbn. now rewrite app_nil_r.
   - inv_bind H. cbn. rewrite app_assoc. eapply IH; [|eassumption].
     destruct st as [[d cur] names]. cbn [layout_input fst] in *. destruct i as [n|n|n|al]; cbn [input_def].
-    + destruct (get_section_create n (o_sects d)) as [secs1 s]. inv_bind Ha. injection Ha as <-.
+    + destruct (fix_twice cfg && existsb (String.eqb n) (placed_so_far d names)); [discriminate|].
+      destruct (get_section_create n (o_sects d)) as [secs1 s]. inv_bind Ha. injection Ha as <-.
       cbn. now rewrite app_nil_r.
     + destruct (find_sect (sd_name n) (o_sects d)); [discriminate|].
       destruct (find_sect n (o_sects d)); [|discriminate]. injection Ha as <-. cbn. now rewrite app_nil_r.
@@ -1384,7 +1395,7 @@ Proof.
 Qed.
 
 Lemma layout_sections_D mems : forall d D d',
-  DInv (o_syms d) D -> layout_sections d mems = Ok d' ->
+  DInv (o_syms d) D -> layout_sections cfg d mems = Ok d' ->
   DInv (o_syms d') (D ++ flat_map mem_defs mems).
 Proof.
   induction mems as [|m r IH]; intros d D d' Inv H; cbn in H.
@@ -1409,7 +1420,7 @@ Proof.
 Qed.
 
 Lemma link_trace_no_duplicate_definitions objs lay partial entry extra out ts :
-  link_trace objs lay partial entry extra = Ok (out, ts) ->
+  link_trace cfg objs lay partial entry extra = Ok (out, ts) ->
   NoDup (all_defs objs lay partial extra).
 Proof.
   unfold link_trace. destruct objs as [|o0 objs0]; [discriminate|]. set (objs := o0 :: objs0).
@@ -1463,13 +1474,116 @@ Proof.
 Qed.
 
 Lemma layout_memory_size_check d m d1 cur names data :
-  layout_inputs (d, m_loc m, []) (m_inputs m) = Ok (d1, cur, names) ->
+  layout_inputs cfg (d, m_loc m, []) (m_inputs m) = Ok (d1, cur, names) ->
   image_data (o_sects d1) (mkImage (m_name m) (m_loc m) names) = Ok data ->
-  (layout_memory d m = Diag 4 <-> len data > m_size m) /\
-  (len data <= m_size m -> exists d', layout_memory d m = Ok d').
+  (layout_memory cfg d m = Diag 4 <-> len data > m_size m) /\
+  (len data <= m_size m -> exists d', layout_memory cfg d m = Ok d').
 Proof.
   intros L I. unfold layout_memory. rewrite L. cbn [bind]. rewrite I. cbn [bind].
   destruct (len data >? m_size m) eqn:E.
   - split; [split; [lia | reflexivity] | lia].
   - split; [split; [discriminate | lia] | eauto].
 Qed.
+
+(* ------------------------------------------------------------------ with fix_twice: no section is placed twice *)
+Definition pinv (d : obj) (names : list string) : Prop :=
+  NoDup (placed_so_far d names) /\
+  forall n, In n (placed_so_far d names) -> find_sect n (o_sects d) <> None.
+
+Lemma sec_grows_exists l l' n : sec_grows l l' -> find_sect n l <> None -> find_sect n l' <> None.
+Proof.
+  intros G H. destruct (find_sect n l) as [s|] eqn:F; [|congruence].
+  destruct (G _ _ F) as [s' [e [F' _]]]. congruence.
+Qed.
+
+Lemma layout_input_new d cur names i d' cur' names' :
+  layout_input cfg (d, cur, names) i = Ok (d', cur', names') ->
+  forall n, In n (input_name i) ->
+    find_sect n (o_sects d') <> None /\
+    (fix_twice cfg = true -> ~ In n (placed_so_far d names) \/ find_sect n (o_sects d) = None).
+Proof.
+  intros H n Hn. cbn [layout_input] in H. destruct i as [m|m|m|a]; cbn in Hn; try tauto;
+    destruct Hn as [<-|[]].
+  - destruct (fix_twice cfg && existsb (String.eqb m) (placed_so_far d names)) eqn:Tw; [discriminate|].
+    destruct (get_section_create m (o_sects d)) as [secs1 s] eqn:G.
+    destruct (get_section_create_spec _ _ _ _ G) as [F1 [N1 _]].
+    inv_bind H. injection H as <- <- <-. cbn. split.
+    + erewrite find_set_same; [discriminate | exact F1 | exact N1].
+    + intros Fx. left. rewrite Fx in Tw. cbn in Tw. intros Hin.
+      assert (existsb (String.eqb m) (placed_so_far d names) = true); [|congruence].
+      apply existsb_exists. exists m. split; [assumption | apply String.eqb_refl].
+  - destruct (find_sect (sd_name m) (o_sects d)) eqn:E1; [discriminate|].
+    destruct (find_sect m (o_sects d)); [|discriminate]. injection H as <- <- <-. cbn. split; [|auto].
+    rewrite find_app, E1. cbn. rewrite String.eqb_refl. discriminate.
+  - destruct (find_sect (sd_name m) (o_sects d)) eqn:E1; [discriminate|].
+    inv_bind H. destruct a as [syms id0]. injection H as <- <- <-. cbn. split; [|auto].
+    rewrite find_app, E1. cbn. rewrite String.eqb_refl. discriminate.
+Qed.
+
+Lemma layout_input_pinv d cur names i d' cur' names' :
+  fix_twice cfg = true -> ids_ok (o_syms d) ->
+  layout_input cfg (d, cur, names) i = Ok (d', cur', names') -> pinv d names -> pinv d' names'.
+Proof.
+  intros Fx Hids H [ND Ex].
+  destruct (layout_input_step 0 _ _ _ _ _ _ _ Hids H) as [_ [-> [_ [[G _] [_ [_ Im]]]]]].
+  pose proof (layout_input_new _ _ _ _ _ _ _ H) as New.
+  unfold pinv, placed_so_far in *. rewrite Im, app_assoc.
+  assert (Hnew : forall n, In n (input_name i) -> ~ In n (flat_map i_sects (o_images d) ++ names)).
+  { intros n Hn Hin. destruct (New n Hn) as [_ K]. destruct (K Fx) as [K1|K1]; [tauto|].
+    apply (Ex n Hin). exact K1. }
+  split.
+  - destruct i as [m|m|m|a]; cbn [input_name]; try (now rewrite app_nil_r);
+      apply NoDup_snoc; auto; apply Hnew; now left.
+  - intros n Hn. apply in_app_iff in Hn. destruct Hn as [Hn|Hn].
+    + eapply sec_grows_exists; [exact G | auto].
+    + now destruct (New n Hn).
+Qed.
+
+Lemma layout_inputs_pinv l : forall d cur names d' cur' names',
+  fix_twice cfg = true -> ids_ok (o_syms d) ->
+  layout_inputs cfg (d, cur, names) l = Ok (d', cur', names') -> pinv d names -> pinv d' names'.
+Proof.
+  induction l as [|i r IH]; intros d cur names d' cur' names' Fx Hids H P; cbn [layout_inputs] in H.
+  - now injection H as <- <- <-.
+  - inv_bind H. destruct a as [[d1 cur1] names1].
+    destruct (layout_input_step 0 _ _ _ _ _ _ _ Hids Ha) as [_ [_ [_ [_ [_ [I1 _]]]]]].
+    apply (IH _ _ _ _ _ _ Fx I1 H). exact (layout_input_pinv _ _ _ _ _ _ _ Fx Hids Ha P).
+Qed.
+
+Lemma layout_sections_pinv mems : forall d d',
+  fix_twice cfg = true -> ids_ok (o_syms d) ->
+  layout_sections cfg d mems = Ok d' -> pinv d [] -> pinv d' [].
+Proof.
+  induction mems as [|m r IH]; intros d d' Fx Hids H P; cbn in H.
+  - now injection H as <-.
+  - inv_bind H. destruct (layout_memory_grows _ _ _ Hids Ha) as [_ [_ [I1 _]]].
+    apply (IH _ _ Fx I1 H).
+    unfold layout_memory in Ha. inv_bind Ha. destruct a0 as [[d1 cur] names]. inv_bind Ha.
+    destruct (len a0 >? m_size m); [discriminate|]. injection Ha as <-.
+    pose proof (layout_inputs_pinv _ _ _ _ _ _ _ Fx Hids Ha0 P) as [ND Ex].
+    unfold pinv, placed_so_far in *. cbn [o_images o_sects]. rewrite flat_map_app. cbn [flat_map i_sects].
+    rewrite !app_nil_r. split; assumption.
+Qed.
+
+Lemma link_trace_fixed_nodup objs l entry extra out ts :
+  fix_twice cfg = true ->
+  link_trace cfg objs (Some l) false entry extra = Ok (out, ts) -> NoDup (all_placed (l_mems l)).
+Proof.
+  intros Fx H. destruct (link_trace_inv _ _ _ _ _ _ _ H) as [d1 [I [Im [F C]]]].
+  destruct C as [[? _]|[_ [_ L]]]; [discriminate|].
+  assert (P0 : pinv d1 []).
+  { unfold pinv, placed_so_far. rewrite Im. cbn. split; [constructor | tauto]. }
+  destruct (layout_sections_pinv _ _ _ Fx I L P0) as [ND _].
+  destruct (layout_sections_spec _ _ _ I L) as [_ [_ [_ [imgs [E [Is _]]]]]].
+  unfold placed_so_far in ND. rewrite app_nil_r, E, Im in ND. cbn in ND. now rewrite Is in ND.
+Qed.
+
+Lemma c12_layout_fixed objs l entry extra out ts :
+  fix_twice cfg = true ->
+  link_trace cfg objs (Some l) false entry extra = Ok (out, ts) ->
+  Forall2 (placed_ok out) (l_mems l) (o_images out).
+Proof.
+  intros Fx H. eapply c12_layout; [exact H|]. eapply link_trace_fixed_nodup; eassumption.
+Qed.
+
+End WithCfg.
